@@ -12,6 +12,7 @@ namespace). Spec-side definitions (`submit`, `groups`, `session`, `transcript`) 
 `RuschmSpec/Front.lean`; only property theorems live here, helpers in `FrontLemmas.lean`.
 -/
 import RuschmProofs.FrontLemmas
+import RuschmProofs.UnlocFront
 import RuschmProofs.C18Bracket
 
 namespace Ruschm.C18
@@ -136,14 +137,38 @@ theorem split_is_newline (pre ls : List String) (x y : String)
     unfinished (pre ++ x :: y :: ls) = unfinished (pre ++ (x ++ "\n" ++ y) :: ls) :=
   groups_split pre ls x y hx hy hc
 
-/-- SPLIT INVARIANCE (located form). Two sessions whose groups are, one by one, texts with the
-same tokens at the same locations — in particular two sessions with the same groups, e.g.
-differing in empty lines only — end in the same interpreter state with the same transcript and
-the same error messages. (That the transcript does not depend on the token LOCATIONS either —
-which change when a line break replaces a blank — is not proved: see the final report; `ReplOut`
-carries no locations, so this needs exactly that `evalText`'s value/error kind is a function of
-the token list alone.) -/
+/-- SPLIT INVARIANCE. Two sessions whose groups are, one by one, texts with the same TOKENS — however
+the tokens are spread over lines, indented or commented — print the same thing step by step
+(each submission's output, echo and error message), hence have the same transcript and the same
+error messages, and end in the same interpreter state up to the source positions recorded in
+procedures. (`ReplOut` carries no locations; this is `evalText`'s value and error kind being a
+function of the token list alone: `C17.outcome_depends_on_tokens_only`.) -/
 theorem repl_split_invariance (fuel : Nat) (lines₁ lines₂ : List String)
+    (h : SameTokens (groups lines₁) (groups lines₂)) :
+    (replRun fuel lines₁).2.filter (·.submitted) = (replRun fuel lines₂).2.filter (·.submitted) ∧
+    transcript (replRun fuel lines₁).2 = transcript (replRun fuel lines₂).2 ∧
+    errors (replRun fuel lines₁).2 = errors (replRun fuel lines₂).2 ∧
+    (replRun fuel lines₁).1.st.unloc = (replRun fuel lines₂).1.st.unloc := by
+  obtain ⟨a0, a1, _⟩ := repl_groups fuel lines₁
+  obtain ⟨b0, b1, _⟩ := repl_groups fuel lines₂
+  obtain ⟨a1', a2, a3⟩ := repl_eq_sequential fuel lines₁
+  obtain ⟨b1', b2, b3⟩ := repl_eq_sequential fuel lines₂
+  obtain ⟨c, d⟩ := session_sameTokens fuel _ _ (withStdlib fuel false) (withStdlib fuel false) h rfl
+  rw [a1, b1, a2, b2, a3, b3, a1', b1', c]
+  exact ⟨rfl, rfl, rfl, d⟩
+
+/-- a form written on one line or split across lines with any valid layout: the groups' texts
+have the same tokens (`C06.lex_render`) -/
+theorem rendered_same_tokens (ts : List Token) (l₁ l₂ : List (List Char))
+    (hs : ∀ t ∈ ts, Text.SupportedTok t) (h₁ : Text.ValidLayout ts l₁) (h₂ : Text.ValidLayout ts l₂) :
+    toksOf (String.ofList (Text.interleave ts l₁)).toList = toksOf (String.ofList (Text.interleave ts l₂)).toList := by
+  simp only [String.toList_ofList]
+  rw [toksOf_interleave ts l₁ hs h₁, toksOf_interleave ts l₂ hs h₂]
+
+/-- SPLIT INVARIANCE, located form: with the same tokens at the same locations (in particular
+with the same groups, e.g. sessions differing in empty lines only) the final interpreter states
+are equal, not only equal up to recorded positions. -/
+theorem repl_split_invariance_located (fuel : Nat) (lines₁ lines₂ : List String)
     (h : SameLocTokens (groups lines₁) (groups lines₂)) :
     (replRun fuel lines₁).1.st = (replRun fuel lines₂).1.st ∧
     transcript (replRun fuel lines₁).2 = transcript (replRun fuel lines₂).2 ∧
@@ -158,7 +183,34 @@ section Example
 example (fuel : Nat) :
     transcript (replRun fuel ["(car", "", "'(1 2))"]).2 = transcript (replRun fuel ["(car", "'(1 2))"]).2 := by
   have hg : groups ["(car", "", "'(1 2))"] = groups ["(car", "'(1 2))"] := by decide
-  exact (repl_split_invariance fuel _ _ (by rw [hg]; exact sameLocTokens_refl _)).2.1
+  exact (repl_split_invariance_located fuel _ _ (by rw [hg]; exact sameLocTokens_refl _)).2.1
+
+/-- `(car '(1 2))` entered on one line, or on two lines with extra blanks: the same transcript -/
+example (fuel : Nat) :
+    transcript (replRun fuel ["(car", "   '(1 2))"]).2 = transcript (replRun fuel ["(car '(1 2))"]).2 := by
+  let ts : List Token := [.lparen, .ident "car", .quote, .lparen, .prim (.int 1), .prim (.int 2), .rparen, .rparen]
+  have hs : ∀ t ∈ ts, Text.SupportedTok t := by
+    intro t ht
+    simp only [ts, List.mem_cons, List.not_mem_nil, or_false] at ht
+    rcases ht with rfl | rfl | rfl | rfl | rfl | rfl | rfl | rfl
+    · trivial
+    · exact Or.inl (by decide)
+    · trivial
+    · trivial
+    · exact (by decide : fitsI32 1 = true)
+    · exact (by decide : fitsI32 2 = true)
+    · trivial
+    · trivial
+  have g1 : groups ["(car", "   '(1 2))"] = ["(car\n   '(1 2))"] := by decide
+  have g2 : groups ["(car '(1 2))"] = ["(car '(1 2))"] := by decide
+  have e1 : String.ofList (Text.interleave ts [[], [], "\n   ".toList, [], [], [' '], [], [], []]) = "(car\n   '(1 2))" := by
+    decide
+  have e2 : String.ofList (Text.interleave ts [[], [], [' '], [], [], [' '], [], [], []]) = "(car '(1 2))" := by
+    decide
+  have ht := rendered_same_tokens ts [[], [], "\n   ".toList, [], [], [' '], [], [], []]
+    [[], [], [' '], [], [], [' '], [], [], []] hs (by decide) (by decide)
+  rw [e1, e2] at ht
+  exact (repl_split_invariance fuel _ _ (by rw [g1, g2]; exact ⟨ht, trivial⟩)).2.1
 
 /-- breaking `(define (f x) (* x 2))` after `(define (f x)` -/
 example : groups ["(define (f x)", "  (* x 2))", "(f 21)"] = groups ["(define (f x)\n  (* x 2))", "(f 21)"] :=
